@@ -7,11 +7,13 @@ def LEN : Nat := 15
 def inRange (k : Nat) (b : Block) : Bool := k * LEN ≤ b.number && b.number < (k + 1) * LEN
 def blocksOf (S : List Block) (k : Nat) : List Block := S.filter (inRange k)
 
-variable {ρ : Type} (R : List Block → ρ)
+/- `R` computes the root of one range from the stored blocks of that range, `none` = the range is
+skipped (no block for the blocks-and-transactions table, no transaction for the legacy table) -/
+variable {ρ : Type} (R : List Block → Option ρ)
 
-/-- the root of range `k` as computed from the store, `none` for an empty range (skipped) -/
+/-- the root of range `k` as computed from the store, `none` for a skipped range -/
 def rootAt (S : List Block) (k : Nat) : Option (Nat × ρ) :=
-  if blocksOf S k = [] then none else some (k, R (blocksOf S k))
+  (R (blocksOf S k)).map (fun r => (k, r))
 
 /-- `BlockRangeImporter::run(up_to)` -/
 def resume (roots : List (Nat × ρ)) : Nat :=
@@ -30,7 +32,10 @@ def rollbackRoots (roots : List (Nat × ρ)) (n : Nat) : List (Nat × ρ) := roo
 def cached (S : List Block) (K : Nat) : List (Nat × ρ) := (List.range K).filterMap (rootAt R S)
 
 theorem rootAt_fst {S : List Block} {k : Nat} {r : Nat × ρ} (h : rootAt R S k = some r) : r.1 = k := by
-  unfold rootAt at h; split at h <;> simp at h; rw [← h]
+  unfold rootAt at h
+  cases hR : R (blocksOf S k) with
+  | none => rw [hR] at h; simp at h
+  | some x => rw [hR] at h; simp at h; rw [← h]
 
 theorem mem_cached {S : List Block} {K : Nat} {r : Nat × ρ} :
     r ∈ cached R S K ↔ r.1 < K ∧ rootAt R S r.1 = some r := by
@@ -248,62 +253,66 @@ theorem rinv_applyOut (S : List Block) (roots : List (Nat × ρ)) (out : Option 
       | some n => simpa using rinv_backward R S roots s n ha h
 
 /-- the whole import: blocks loop, then `BlockRangeImporter::run(target)` -/
-def runF (c : Cfg) : Nat → List Block → List (Nat × ρ) → List (Option Ev) →
-    List Block × List (Nat × ρ) × List (Option Ev)
-  | 0, S, roots, rs => (S, roots, rs)
-  | fuel + 1, S, roots, rs =>
-    match poll c [] rs with
-    | (none, rest) => (S, roots, rest)
-    | (some out, rest) => runF c fuel (applyOut S (some out)) (applyOutRoots S roots (some out)) rest
+def runF (c : Cfg) : Nat → Option Nat → List Block → List (Nat × ρ) → List (Option Ev) →
+    List Block × List (Nat × ρ) × List (Option Ev) × Option Nat
+  | 0, lp, S, roots, rs => (S, roots, rs, lp)
+  | fuel + 1, lp, S, roots, rs =>
+    match poll c lp [] rs with
+    | (none, rest, lp') => (S, roots, rest, lp')
+    | (some out, rest, lp') => runF c fuel lp' (applyOut S (some out)) (applyOutRoots S roots (some out)) rest
 
 def importF (c : Cfg) (fuel : Nat) (S : List Block) (roots : List (Nat × ρ)) (rs : List (Option Ev)) :
     List Block × List (Nat × ρ) × List (Option Ev) :=
-  let r := runF c fuel S roots rs
-  (r.1, rangesRun R r.1 r.2.1 c.untilN, r.2.2)
+  let r := runF c fuel none S roots rs
+  (r.1, rangesRun R r.1 r.2.1 c.untilN, r.2.2.1)
 
-theorem runF_refines (c : Cfg) : ∀ (fuel : Nat) (S V : List Block) (roots : List (Nat × ρ)) (rs : List (Option Ev)),
-    Inv c S [] V → Good c V rs → RInv R S roots →
-    ∃ pre, rs = pre ++ (runF c fuel S roots rs).2.2 ∧
-      Inv c (runF c fuel S roots rs).1 [] (applyAll V pre) ∧
-      RInv R (runF c fuel S roots rs).1 (runF c fuel S roots rs).2.1 := by
+theorem runF_refines (c : Cfg) : ∀ (fuel : Nat) (lp : Option Nat) (S V : List Block) (roots : List (Nat × ρ)) (rs : List (Option Ev)),
+    Inv c S [] V → Good c lp V rs → RInv R S roots →
+    ∃ pre, rs = pre ++ (runF c fuel lp S roots rs).2.2.1 ∧
+      Inv c (runF c fuel lp S roots rs).1 [] (applyAll V pre) ∧
+      RInv R (runF c fuel lp S roots rs).1 (runF c fuel lp S roots rs).2.1 := by
   intro fuel
   induction fuel with
-  | zero => intro S V roots rs hI _ hR; exact ⟨[], by simp [runF], by simpa [runF, applyAll] using hI, by simpa [runF] using hR⟩
+  | zero => intro lp S V roots rs hI _ hR; exact ⟨[], by simp [runF], by simpa [runF, applyAll] using hI, by simpa [runF] using hR⟩
   | succ fuel ih =>
-    intro S V roots rs hI hG hR
-    obtain ⟨pre, h1, _, h3, h4⟩ := poll_refines c rs [] S V hI hG
+    intro lp S V roots rs hI hG hR
+    obtain ⟨pre, h1, _, h3, h4⟩ := poll_refines c rs lp [] S V hI hG
     simp only [runF]
-    cases hp : poll c [] rs with
-    | mk out rest =>
-      rw [hp] at h1 h3 h4
-      cases out with
-      | none => exact ⟨pre, h1, by simpa [applyOut] using h3, hR⟩
-      | some o =>
-        simp only
-        have hS' : Sorted (applyOut S (some o)) := by
-          have := inv_sorted_store h3; simpa using this
-        have hR' := rinv_applyOut R S roots (some o) hS' hR
-        obtain ⟨pre', g1, g2, g3⟩ := ih _ _ _ rest h3 h4 hR'
-        refine ⟨pre ++ pre', ?_, ?_, g3⟩
-        · rw [List.append_assoc, ← g1]; exact h1
-        · rw [applyAll_append]; exact g2
+    cases hp : poll c lp [] rs with
+    | mk out rest' =>
+      cases rest' with
+      | mk rest lp' =>
+        rw [hp] at h1 h3 h4
+        cases out with
+        | none => exact ⟨pre, h1, by simpa [applyOut] using h3, hR⟩
+        | some o =>
+          simp only
+          have hS' : Sorted (applyOut S (some o)) := by
+            have := inv_sorted_store h3; simpa using this
+          have hR' := rinv_applyOut R S roots (some o) hS' hR
+          obtain ⟨pre', g1, g2, g3⟩ := ih lp' _ _ _ rest h3 h4 hR'
+          refine ⟨pre ++ pre', ?_, ?_, g3⟩
+          · rw [List.append_assoc, ← g1]; exact h1
+          · rw [applyAll_append]; exact g2
 
 /-- **C13, layer 1 (blocks and roots).** After one import of a good reply script, the stored blocks
 are the abstract chain cut at the target, and — when the last complete range below the target is
 covered by a stored block — the stored roots are exactly the roots of all complete ranges below the
 target computed from those blocks: nothing depends on the batches, roll-backs, or earlier imports. -/
 theorem importF_refines (c : Cfg) (fuel : Nat) (S0 : List Block) (roots0 : List (Nat × ρ)) (rs : List (Option Ev))
-    (hS : Sorted S0) (hU : ∀ x ∈ S0, x.number ≤ c.untilN) (hG : Good c S0 rs) (hR : RInv R S0 roots0) :
+    (hS : Sorted S0) (hU : ∀ x ∈ S0, x.number ≤ c.untilN) (hG : Good c none S0 rs) (hR : RInv R S0 roots0) :
     ∃ pre, rs = pre ++ (importF R c fuel S0 roots0 rs).2.2 ∧
       (importF R c fuel S0 roots0 rs).1 = (applyAll S0 pre).filter (fun x => x.number ≤ c.untilN) ∧
+      Sorted (importF R c fuel S0 roots0 rs).1 ∧
       (Below (importF R c fuel S0 roots0 rs).1 ((c.untilN + 1) / LEN) →
         (importF R c fuel S0 roots0 rs).2.1 = cached R (importF R c fuel S0 roots0 rs).1 ((c.untilN + 1) / LEN) ∧
         RInv R (importF R c fuel S0 roots0 rs).1 (importF R c fuel S0 roots0 rs).2.1) := by
   have hI : Inv c S0 [] S0 := by
     refine ⟨hS, ?_, Or.inl rfl⟩
     rw [List.append_nil]; symm; rw [List.filter_eq_self]; intro x hx; simpa using hU x hx
-  obtain ⟨pre, h1, h2, K, hK, hB⟩ := runF_refines R c fuel S0 S0 roots0 rs hI hG hR
-  refine ⟨pre, h1, by simpa [importF] using h2.2.1, ?_⟩
+  obtain ⟨pre, h1, h2, K, hK, hB⟩ := runF_refines R c fuel none S0 S0 roots0 rs hI hG hR
+  refine ⟨pre, h1, by simpa [importF] using h2.2.1, ?_, ?_⟩
+  · have := inv_sorted_store h2; simpa [importF] using this
   intro hBelow
   simp only [importF]
   rw [hK, rangesRun_cached]
@@ -324,7 +333,7 @@ theorem importF_refines (c : Cfg) (fuel : Nat) (S0 : List Block) (roots0 : List 
 
 /-- class 3: a target above the delivered tip caches the root of a partially imported range for good -/
 theorem partial_range_counterexample :
-    let R : List Block → List Nat := fun bs => bs.map (·.hash)
+    let R : List Block → Option (List Nat) := fun bs => if bs.isEmpty then none else some (bs.map (·.hash))
     let b : Nat → Block := fun n => ⟨n, n, n * 10⟩
     let chain20 := (List.range' 1 20).map b
     let rest := (List.range' 21 30).map b
